@@ -62,6 +62,9 @@ def shards(tier, seed):
             out.append({'kind': 'axis', 'cell': name, 'M': M.tolist(), 'res': res})
     for k in range(6):
         out.append({'kind': 'grid3d', 'k': k})
+    # sample counts around 2^20 (a natural block size): conservation must not depend on the amount of data
+    for nsamp in ([2**20 + 64] if tier == 'quick' else [2**20 - 1, 2**20 + 64, 2**21 + 3]):
+        out.append({'kind': 'large', 'nsamp': nsamp})
     hi = 2048 if tier == 'thorough' else 1024
     for lo in range(1, hi + 1, 128):
         out.append({'kind': 'roundtrip', 'lo': lo, 'hi': min(lo + 127, hi)})
@@ -221,6 +224,37 @@ def run_shard(shard) -> Result:
                 res.violation(kind, {'coords': coords.tolist(), 'M': np.asarray(M).tolist(), 'res': r}, detail)
         res.sample({'grid3d_cell': abc, 'resolution': r})
         return res
+    if shard['kind'] == 'large':
+        from gemdat.volume import trajectory_to_volume
+
+        nsamp = shard['nsamp']
+        N = 64
+        T = -(-nsamp // N)
+        M = np.diag([4.0, 5.0, 6.0])
+        r = 0.9
+        n = [int(x // r) for x in (4.0, 5.0, 6.0)]
+        k = np.arange(T * N)
+        vox = np.stack([(k * 7) % n[0], (k * 3 + k // 5) % n[1], (k // 11) % n[2]], axis=1)
+        u = np.stack([0.1 + 0.8 * ((k * 0.6180339887) % 1), 0.1 + 0.8 * ((k * 0.7548776662) % 1), 0.1 + 0.8 * ((k * 0.5698402910) % 1)], axis=1)
+        coords = ((vox + u) / np.array(n)).reshape(T, N, 3)
+        traj = concretise.make_trajectory(coords, ['Li'] * N, M)
+        case = {'large_nsamp': nsamp}
+        try:
+            vol = trajectory_to_volume(traj, resolution=r)
+            data = np.asarray(vol.data)
+            E = np.zeros(tuple(n), dtype=int)
+            np.add.at(E, (vox[:, 0], vox[:, 1], vox[:, 2]), 1)
+            res.evals += T * N
+            res.stats['samples_sharp'] += T * N
+            res.outcome(('large', nsamp, int(data.sum())))
+            if int(data.sum()) != T * N:
+                res.violation('voxel-sum-not-frames-times-atoms', case, f'{int(data.sum())} != {T * N} (frames {T} x atoms {N})')
+            elif data.shape != E.shape or not np.array_equal(data, E):
+                res.violation('voxel-not-floor-of-coordinate-times-grid', case, f'large trajectory: {int(np.sum(data != E))} voxels differ')
+        except Exception as e:  # noqa: BLE001
+            res.violation(f'volume-raise-{type(e).__name__}', case, str(e))
+        res.sample({'large_trajectory_samples': T * N})
+        return res
     # round trip
     from pymatgen.core import Lattice
 
@@ -233,6 +267,14 @@ def run_shard(shard) -> Result:
         try:
             back = np.asarray(vol.frac_coords_to_voxel(vol.voxel_to_frac_coords(v)))
             f = np.asarray(vol.voxel_to_frac_coords(v))
+            # the caller's array is used twice: it must not be modified and must map to the same voxels
+            f0 = np.array(f, dtype=float)
+            b1 = np.asarray(vol.frac_coords_to_voxel(f0))
+            b2 = np.asarray(vol.frac_coords_to_voxel(f0))
+            v0 = np.array(v)
+            vol.voxel_to_frac_coords(v0)
+            if not np.array_equal(f0, f) or not np.array_equal(b1, b2) or not np.array_equal(v0, v):
+                res.violation('voxel-conversion-modifies-its-argument', {'roundtrip_n': n}, f'dims={dims}')
         except Exception as e:  # noqa: BLE001
             res.violation(f'roundtrip-raise-{type(e).__name__}', {'roundtrip_n': n}, str(e))
             continue
@@ -257,6 +299,9 @@ def finalize(total, tier):
 
 
 def replay(case):
+    if 'large_nsamp' in case:
+        r = run_shard({'kind': 'large', 'nsamp': case['large_nsamp']})
+        return [{'kind': v['kind'], 'detail': v['detail']} for v in r.viols]
     if 'roundtrip_n' in case:
         r = run_shard({'kind': 'roundtrip', 'lo': case['roundtrip_n'], 'hi': case['roundtrip_n']})
         return [{'kind': v['kind'], 'detail': v['detail']} for v in r.viols]
